@@ -39,6 +39,10 @@ ASSUMPTIONS = [
     "prove() passes entry by entry to runqapgenf.ensure_ek (with the stub binaries ensure_mkey fails before ensure_ek is reached); "
     "'different equations -> different signature' across runs is checked per function name over all runs of one exploration and "
     "relies on MD5 truncated to 40 bits not colliding on the few thousand multisets of a run",
+    "interleaved histories (flavour interleave): calls of one name whose bodies differ (an extra product, another product, one more copy of "
+    "a check) separated in file order by calls of other functions, directly and through two different callers that are sub-circuits "
+    "themselves; the model's qapsplit compares every call with the FIRST call of its name wherever it sits (C12_same_function clause), "
+    "so 'inconsistent-functions' is expected exactly as for adjacent calls; consistent interleavings must not be reported",
     "file buffering: only 'an explicit flush makes prior writes visible' is modelled; cases whose unflushed tail exceeds Python's 8 KiB "
     "buffer are compared leniently (on-disk content between the model's flush pointer and the full file) and counted as unmodelled",
 ]
@@ -606,6 +610,79 @@ class Gen:
         return {"id": cid, "flavour": "names", "funcs": {k: {"variants": v["variants"]} for k, v in self.funcs.items()}, "main": main,
                 "tags": sorted(self.tags)}
 
+    # ---- calls of SEVERAL functions interleaved; a later, NON-ADJACENT call of an earlier-seen function differs
+    INTERLEAVE = [("f-g-f", 4), ("f-g-h-f", 2), ("g-f-g-f", 2), ("f-f-g-f", 2), ("f-g-f-g-f", 1), ("nested", 3), ("consistent", 2),
+                  ("consistent-nested", 1)]
+
+    def interleave_case(self, cid):
+        """one named function with two bodies that trace DIFFERENT equation multisets (an extra product / another product / one
+        more copy of a check), called so that its differing calls are separated, in file order, by calls of other functions:
+        directly (f, g, f), after an equal adjacent pair (f, f, g, f), or through two different callers that are themselves
+        sub-circuits (o1 -> f, o2 -> f: the [function] lines read o1, f, o2, f).  The inconsistency has to be reported exactly as
+        for adjacent calls; the consistent scenarios (same body every time) must not be reported."""
+        rnd = self.rnd
+        sc = rnd.choice([s for s, w in self.INTERLEAVE for _ in range(w)])
+        how = rnd.choice(["extra-product", "other-product", "extra-check"])
+        self.tags.add("interleave:" + sc); self.tags.add("interleave:" + how)
+        # bystanders first (they cannot call the target)
+        others = [self.new_func(["L"] * rnd.randrange(1, 3), name=nm + str(len(self.funcs)), pure=True)
+                  for nm in rnd.sample(["g", "h", "cube", "lin"], 2)]
+        name = rnd.choice(["f", "prod", "sq", "step"]) + str(len(self.funcs))
+        nparams = rnd.randrange(1, 3)
+        k = rnd.randrange(1, 3)
+        variants = {}
+        for m in range(2):
+            regs = [Reg("L", 50) for _ in range(nparams)]; body = []
+            for j in range(k):
+                body.append(["mul", len(regs) - 1, 0]); regs.append(Reg("L", None))
+            ret = len(regs) - 1
+            if how == "extra-product" and m == 1:
+                body.append(["mul", len(regs) - 1, 0]); regs.append(Reg("L", None)); ret = len(regs) - 1
+            elif how == "other-product":
+                body.append(["mul", len(regs) - 1, len(regs) - 1] if m == 1 else ["mul", len(regs) - 1, 0]); regs.append(Reg("L", None))
+                ret = len(regs) - 1
+            elif how == "extra-check":
+                body.append(["mul", nparams - 1, 0]); regs.append(Reg("L", None))      # the same product as the first one
+                body += [["aeq", nparams, len(regs) - 1]] * (1 + m)
+            variants[str(m)] = {"body": body, "ret": ret}
+        self.funcs[name] = {"params": ["L"] * nparams, "variants": variants}
+        self.order.append(name)
+        g, h = others
+        first = str(rnd.randrange(2)); second = str(1 - int(first))
+        if sc.startswith("consistent"): second = first
+        plans = {"f-g-f": [(name, first), (g, "0"), (name, second)],
+                 "f-g-h-f": [(name, first), (g, "0"), (h, "0"), (name, second)],
+                 "g-f-g-f": [(g, "0"), (name, first), (g, "0"), (name, second)],
+                 "f-f-g-f": [(name, first), (name, first), (g, "0"), (name, second)],
+                 "f-g-f-g-f": [(name, first), (g, "0"), (name, first), (g, "0"), (name, second)],
+                 "consistent": [(name, first), (g, "0"), (name, second), (h, "0"), (name, first)]}
+        if sc in ("nested", "consistent-nested"):
+            plan = []
+            for i, md in enumerate((first, second)):
+                oregs = [Reg("L", 50)]; obody = []
+                self.ring_ops(oregs, obody, rnd.randrange(0, 2), True, True)
+                self.emit_call(oregs, obody, name, True, md)
+                obody.append(["mul", len(oregs) - 1, 0]); oregs.append(Reg("L", None))
+                oname = ("outer", "wrap")[i] + str(len(self.funcs))
+                self.funcs[oname] = {"params": ["L"], "variants": {"0": {"body": obody, "ret": len(oregs) - 1}}}
+                self.order.append(oname)
+                plan.append((oname, "0"))
+                self.tags.add("call:nested")
+            if rnd.random() < 0.5: plan.insert(1, (g, "0"))
+        else:
+            plan = plans[sc]
+        regs = []; main = []
+        for _ in range(rnd.randrange(1, 3)):
+            main.append(["priv", self.small()]); regs.append(Reg("L", 50))
+        for nm, md in plan:
+            self.ring_ops(regs, main, rnd.randrange(0, 2), False, True)
+            self.emit_call(regs, main, nm, False, md)
+        L = [i for i, r in enumerate(regs) if r.kind == "L"]
+        if L and rnd.random() < 0.7:
+            main.append(["val", rnd.choice(L)]); self.tags.add("op:val")
+        return {"id": cid, "flavour": "interleave", "funcs": {k_: {"variants": v["variants"]} for k_, v in self.funcs.items()}, "main": main,
+                "tags": sorted(self.tags)}
+
     # ---- function names containing the separator of the wire grammar
     def names_case(self, cid):
         rnd = self.rnd
@@ -680,7 +757,7 @@ class Gen:
 
 
 FLAVOURS = [("flat", 3), ("calls", 6), ("nested", 4), ("coef", 2), ("one-ctx", 2), ("kinds", 2), ("empty", 1), ("variants", 2), ("bigtail", 1),
-            ("dup", 5), ("guard", 4), ("raise", 3), ("names", 4), ("respace", 3)]
+            ("dup", 5), ("guard", 4), ("raise", 3), ("names", 4), ("respace", 3), ("interleave", 5)]
 
 
 def corpus_dup():
@@ -776,6 +853,20 @@ def corpus():
          "funcs": {"f": {"variants": {"0": {"body": [["priv", 2]] * 10 + [["muli", 10, 1], ["mul", 11, 0]], "ret": 12},
                                       "1": {"body": [["priv", 2]] * 10 + [["muli", 0, 11], ["mul", 11, 0]], "ret": 12}}}},
          "main": [["priv", 2], ["call", "f", "1", [0]], ["val", 1]]},
+        # calls of one name with different bodies, separated by a call of another function (directly / through two callers)
+        {"id": "corpus-interleave-f-g-f", "flavour": "interleave", "tags": ["corpus"],
+         "funcs": {"v": {"variants": {"0": {"body": [["mul", 0, 0]], "ret": 1}, "1": {"body": [["mul", 0, 0], ["mul", 1, 0]], "ret": 2}}},
+                   "cube": {"variants": {"0": {"body": [["mul", 0, 0], ["mul", 1, 0]], "ret": 2}}}},
+         "main": [["priv", 2], ["call", "v", "0", [0]], ["call", "cube", "0", [1]], ["call", "v", "1", [0]], ["call", "cube", "0", [3]], ["val", 4]]},
+        {"id": "corpus-interleave-nested", "flavour": "interleave", "tags": ["corpus"],
+         "funcs": {"v": {"variants": {"0": {"body": [["mul", 0, 0]], "ret": 1}, "1": {"body": [["mul", 0, 0], ["mul", 1, 0]], "ret": 2}}},
+                   "o1": {"variants": {"0": {"body": [["call", "v", "0", [0]], ["mul", 1, 0]], "ret": 2}}},
+                   "o2": {"variants": {"0": {"body": [["call", "v", "1", [0]], ["mul", 1, 0]], "ret": 2}}}},
+         "main": [["priv", 3], ["call", "o1", "0", [0]], ["call", "o2", "0", [0]], ["val", 2]]},
+        {"id": "corpus-interleave-consistent", "flavour": "interleave", "tags": ["corpus"],
+         "funcs": {"v": {"variants": {"0": {"body": [["mul", 0, 0]], "ret": 1}}},
+                   "cube": {"variants": {"0": {"body": [["mul", 0, 0], ["mul", 1, 0]], "ret": 2}}}},
+         "main": [["priv", 2], ["call", "v", "0", [0]], ["call", "cube", "0", [1]], ["call", "v", "0", [2]], ["val", 3]]},
     ] + corpus_dup()
 
 
@@ -788,7 +879,7 @@ def generate(rnd, n):
             out.extend(Gen(rnd, fl).dup_case(f"g{i}-{fl}"))
         elif fl == "respace":
             out.extend(Gen(rnd, fl).respace_case(f"g{i}-{fl}"))
-        elif fl in ("guard", "raise", "names"):
+        elif fl in ("guard", "raise", "names", "interleave"):
             out.append(getattr(Gen(rnd, fl), fl + "_case")(f"g{i}-{fl}"))
         else:
             out.append(Gen(rnd, fl).case(f"g{i}-{fl}"))
@@ -1336,7 +1427,8 @@ def check_cases(ex, cases):
 def explore(ctx, extended=False, focus=None):
     ex = Exploration()
     ex.rule = ("programs over the public API (PrivVal/PubVal, +, -, *, scaling, <, ==, val()) with @subqap functions called once, repeatedly, "
-               "nested, with list/tuple/int arguments, one-term/multi-term/scaled arguments, LinCombBool/LinCombFxp leaves, functions "
+               "nested, interleaved (f, g, f: a later non-adjacent call of an earlier-seen function with another body, directly and through two "
+               "different callers), with list/tuple/int arguments, one-term/multi-term/scaled arguments, LinCombBool/LinCombFxp leaves, functions "
                "without LinComb leaves, same-named functions with different bodies, same-named functions whose bodies differ only in how "
                "often a check on existing wires (x*(1-x)=0, a*b=c, assert_eq, assert_zero) is emitted (0..6 copies per call: equal, "
                "differing by an odd number, differing by an even number; directly and through a caller that is itself a sub-circuit; and "
